@@ -2,7 +2,7 @@
    [HeapTable] models a block table at the level where the question has content: items in heap cells, index keys that
    are REFERENCES to cells, freed cells, and the distinguished outcome UAF for a dereference of freed memory.
    Only statements live here. *)
-Require Import Base Cbor Schema Block BlockProofs HeapTable.
+Require Import Base Cbor Schema Block BlockProofs HeapTable HeapWorld.
 Local Open Scope N_scope.
 
 (* under the ownership invariant (every index key refers to one of the table's own live cells) a lookup never touches
@@ -46,6 +46,27 @@ Proof.
   rewrite (hfind_refines _ _ v Ho2), Hv2, Hv1. reflexivity.
 Qed.
 Print Assumptions C19_copy_independent.
+
+(* ANY operation sequence: any number of tables in one heap - created, filled by de-duplicating adds, looked up, copied (the index rebuilt over
+   the copied items) and destroyed in any order and interleaving.  From any state in which every table owns live cells and no two tables
+   share a cell, the run keeps that invariant, and every result and every table's content is that of the same run over INDEPENDENT lists of
+   values (a copy = a copy of the list, a destruction = forgetting the list): a copy is complete, whatever happens to the source afterwards -
+   more adds, destruction - does not show in the copy and vice versa *)
+Theorem C19_any_history : forall ops w, winv w ->
+  winv (fst (wrun w ops)) /\ abs (fst (wrun w ops)) = fst (srun (abs w) ops) /\ snd (wrun w ops) = snd (srun (abs w) ops).
+Proof. exact wrun_refines. Qed.
+Print Assumptions C19_any_history.
+(* ... from nothing, and no lookup or add ever dereferences freed memory *)
+Theorem C19_histories_from_nothing : forall ops,
+  snd (wrun w0 ops) = snd (srun [] ops) /\ abs (fst (wrun w0 ops)) = fst (srun [] ops) /\ ~ In (Some UAF) (snd (wrun w0 ops)).
+Proof. exact world_refines. Qed.
+Print Assumptions C19_histories_from_nothing.
+Example C19_history_nonvacuous :
+  (* table 0 gets "w"; copied to table 1; the source is destroyed; the copy still finds "w" at index 0, gets "x" at index 1; a copy of the copy holds both *)
+  let ops := [WNew; WAdd 0 (VS [119]); WCopy 0; WDestroy 0; WFind 1 (VS [119]); WAdd 1 (VS [120]); WCopy 1; WFind 2 (VS [120]); WFind 0 (VS [119])] in
+  snd (wrun w0 ops) = [None; Some (Found 0); None; None; Some (Found 0); Some (Found 1); None; Some (Found 1); None] /\
+  abs (fst (wrun w0 ops)) = [None; Some [VS [119]; VS [120]]; Some [VS [119]; VS [120]]].
+Proof. vm_compute. split; reflexivity. Qed.
 
 (* what the theorems exclude: with the implicit member-wise copy (index keys still referring to the source's items)
    the same history - copy, destroy the source, look up an existing value - dereferences freed memory *)
